@@ -18,6 +18,7 @@ explicit configuration data by the Lean driver only):
          | err LexicalError <l> <c>      the model builds the parser from the productions (LL model of C01),
            tokenizes and parses by itself, carrying the positions through every roll-back.  DIAGNOSTIC only:
            tree shape / accept-reject are C01-C03; spans are judged on the real tree (`tree` lines, oracle)
+  ctree (same request as tree) -> the same reply, taken from `root.clone()`: a copy of a tree carries the same spans
   tree cfg=<i> g=<j> smart=<0|1> <spanKinds> <synonyms> <keywords> <endName> <skip> <s|l> <text>
        <re-table> <shape>  -> ok sl.sc.el.ec/<get_orig_text>;...   (all nodes of the raw tree, pre-order)
 
@@ -348,6 +349,16 @@ def _walk(e):
         yield from _walk(c)
 
 
+def _walk_clean(e, ll):
+    """pre-order TElements of a cleaned tree (values may be lists / dicts of TElements and plain values)"""
+    yield e
+    v = e.value
+    items = v if isinstance(v, list) else (list(v.keys()) + list(v.values())) if isinstance(v, dict) else []
+    for x in items:
+        if isinstance(x, ll.TElement):
+            yield from _walk_clean(x, ll)
+
+
 def _shape(e):
     k = _kids(e)
     if k is None:
@@ -398,10 +409,12 @@ def impl(case):
                     except Exception as x:
                         rs.append("!" + type(x).__name__)
                 out.append("ok " + ";".join(rs))
-            elif f[0] in ("tree", "ptree"):
+            elif f[0] in ("tree", "ptree", "ctree"):
                 ci, gi, smart = (int(x.split("=")[1]) for x in f[1:4])
-                text = _dec_input(f[9], f[10]) if f[0] == "tree" else _dec_input(f[8], f[9])
+                text = _dec_input(f[9], f[10]) if f[0] != "ptree" else _dec_input(f[8], f[9])
                 root = _parser(ci, gi, smart).parse(text, do_cleanup=False, src_name="t")
+                if f[0] == "ctree":
+                    root = root.clone()
                 out.append("ok " + ";".join(_show(e, text) for e in _walk(root)))
             else:
                 out.append("bad-op")
@@ -532,6 +545,8 @@ def make_case(params, meta=None):
             m["tree%d" % smart] = "ok"
             lines.append("tree cfg=%d g=%d smart=%d %s %s %s %s %s" % (
                 ci, gi, smart, cf, _skip_ids(ci, gi), inp, tbl, _shape(root)))
+            if smart == 1:
+                lines.append("c" + lines[-1])
     return {"lines": lines, "params": params, "meta": m}
 
 
@@ -779,6 +794,14 @@ def oracle(case, replies):
             if _orig(e, text) != enc_str(full[o(a):o(b)]):
                 return "node-orig-text: get_orig_text of node %s is not the text between its positions" % e.name
         res[smart] = (_shape(root), spans)
+        # a copy of a tree (or of any sub-element) is a tree whose nodes carry the same spans and the same text
+        for e in _walk(root):
+            c = e.clone()
+            if _shape(c) != _shape(e) or [x.span for x in _walk(c)] != [x.span for x in _walk(e)]:
+                return "clone: clone() of node %s carries spans %s, the node itself %s" % (
+                    e.name, [x.span for x in _walk(c)][:3], [x.span for x in _walk(e)][:3])
+            if olines and _orig(c, text) != _orig(e, text):
+                return "clone: get_orig_text of the clone of node %s differs from the node's" % e.name
         if kind == "s" and smart == 1 and p.get("gseq") and len(p["gseq"]["texts"]) > 1:
             # elements of two different parses, each asked with a freshly built copy of its own text, alternately
             alt = p["gseq"]["texts"][1]
@@ -814,6 +837,8 @@ def oracle(case, replies):
         raw = set(res[1][1])
         if root.span != res[1][1][0]:
             return "node-cleanup: the cleaned root spans %s, the raw root %s" % (root.span, res[1][1][0])
+        if [x.span for x in _walk_clean(root.clone(), ll)] != [x.span for x in _walk_clean(root, ll)]:
+            return "clone: clone() of the cleaned tree carries other spans than the tree"
         todo = [root]
         while todo:
             e = todo.pop()
@@ -1103,6 +1128,8 @@ def tags(case, replies):
             yield "ptree:" + (" ".join(rep.split()[:2]) if rep.startswith("err") else "ok")
             if rep.startswith("err ParsingError") and r.startswith("ok") and rep.split()[2:] != r[3:].split(";")[0].split("/")[0].split(".")[:2]:
                 yield "ptree:ParsingError-not-at-first-token"
+        if l.startswith("ctree "):
+            yield "ctree:" + rep.split()[0]
         if l.startswith("tree ") and "e" in l.split()[-1]:
             yield "has:empty-node"
             if p.get("g") in BACKTRACKING:
@@ -1136,7 +1163,8 @@ LEVEL_NOTE = (
     "that the model's control flow is the code's (rstrip/split of str input, synonyms/keywords), the model's own "
     "parse (`ptree` lines: LL.construct + runP, compared as a diagnostic only - shape and accept/reject are "
     "C01-C03's subject; the verdict uses the `tree` lines, which take the real shape as data), that `re` behaves as a function of (line, column), the flattening of "
-    "ProdSequence nodes (tree lines take the shape from the real parser there); list/map templates are C05; spans "
+    "ProdSequence nodes (tree lines take the shape from the real parser there), clone() of a tree / sub-element "
+    "carrying the same spans (`ctree` lines + oracle; the model's copy is the tree itself); list/map templates are C05; spans "
     "after cleanup are checked by the oracle only.")
 TECHNIQUE = ("Lean 4 theorems (relational run of the scanner; invariant of the positioned LL stack machine, simulation "
              "to the LL model of C01; induction over tree shapes) over a segmentation supplied by `re` + translator for "
